@@ -56,6 +56,16 @@ def run_one(m, slot):
         ev = os.path.join(d, "evidence")
         os.makedirs(ev)
         env = dict(os.environ, RFSM_EVIDENCE_DIR=ev, RFSM_TARGET_DIR=os.path.join(VERIF, ".cache", "target-selftest-%d" % slot))
+        if m["kind"] == "benign" and os.environ.get("RFSM_SELFTEST_CROSS") == "1":
+            # a behaviour-preserving edit must be silent for EVERY property, not only for the one it was written for
+            alarms = []
+            for p in ["C%02d" % i for i in range(1, 21)]:
+                r = subprocess.run([os.path.join(VERIF, "check"), p, "--repo", d], env=env, stdout=subprocess.PIPE, stderr=subprocess.STDOUT, text=True)
+                if r.returncode == 2:
+                    return dict(m, result="broken-build", detail=r.stdout[-1500:])
+                if r.returncode == 1:
+                    alarms.append(p + ": " + "; ".join(l.strip()[:160] for l in r.stdout.splitlines() if l.startswith("  R") or l.startswith("  W"))[:400])
+            return dict(m, result="silent" if not alarms else "FALSE-ALARM", detail="\n".join(alarms))
         r = subprocess.run([os.path.join(VERIF, "check"), m["prop"], "--repo", d], env=env, stdout=subprocess.PIPE,
                            stderr=subprocess.STDOUT, text=True)
         out = r.stdout
